@@ -229,6 +229,29 @@ fn run_case(c: &Case) -> CaseResult {
 fn gen_cases(ctx: &Ctx) -> Vec<Case> {
     let mut cases = Vec::new();
     let ends = ["finish", "try_finish_drop", "drop"];
+    if ctx.param("tiny").is_some() {
+        // Miri-sized workload: small payloads at every level, plus one full staging buffer
+        let n = ctx.budget("tiny", 36, 36);
+        let mut rng = Rng::new(ctx.seed, 0xC01, 7);
+        for i in 0..n {
+            cases.push(Case {
+                class: payload::CLASSES[(i as usize) % payload::CLASSES.len()].to_string(),
+                len: [0usize, 1, 2, 3, 17, 255, 256, 700, 1500, 4000][(i as usize) % 10],
+                split: ["all", "small", "halves"][(i as usize) % 3].to_string(),
+                flush_every: [0usize, 1, 3][(i as usize / 3) % 3],
+                flush_on_empty: i % 5 == 0,
+                raw_write: i % 2 == 0,
+                level: (i % 10) as u8,
+                end: ends[(i as usize) % 3].to_string(),
+                pseed: rng.next_u64(),
+            });
+        }
+        cases.push(Case {
+            class: "runs".into(), len: 65495 + 100, split: "all".into(), flush_every: 0, flush_on_empty: false,
+            raw_write: false, level: 1, end: "finish".into(), pseed: 5,
+        });
+        return cases;
+    }
     let mut k = 0u64;
     // Deterministic part: every boundary length x rotating (class, split, level, end), every level
     // on incompressible and slightly expanding payloads around the staging limit.
@@ -365,7 +388,7 @@ fn main() {
         o
     };
     run_cases(&ctx, &mut rep, cases.len() as u64, 120.0, &f, &|i| case_json(&cases[i as usize]));
-    if ctx.replay.is_none() {
+    if ctx.replay.is_none() && ctx.param("tiny").is_none() && ctx.param("cases").is_none() {
         rep.floor("cases", rep.evaluations, 500);
         let mi = rep.counters.get("members_inspected").copied().unwrap_or(0);
         rep.floor("members_inspected", mi, 1000);
